@@ -48,7 +48,8 @@ def required_cells(tier):
     cells += ["depth:1", "depth:2", "depth:3+", "define-in-dead-group", "define-in-live-group", "undef-live",
               "elif-after-taken-branch", "directive-continuation", "empty-group", "class:enum", "class:random",
               "class:stress", "table-compared", "via-cli", "non-utf8-bytes", "block-comment-in-directive", "two-platforms",
-              "file-includes-itself", "null-directive", "benign-directive"]
+              "file-includes-itself", "null-directive", "benign-directive", "form-feed-and-other-non-line-breaks",
+              "crlf-line-ends", "crlf-with-continuation-in-directive"]
     return cells
 
 
@@ -172,8 +173,15 @@ def run_case(ctx, workdir, text, defines, r, cls, check_table=True, case=None):
         with open(path, "w", encoding="latin-1") as f:
             f.write(text)
     else:
-        with open(path, "w") as f:
-            f.write(text)
+        if case is not None and case.get("formfeed"):
+            # form feed / vertical tab are white space; NEL and U+2028 sit inside comments: none of them ends a line
+            lines_ = text.split("\n")
+            for k_ in range(len(lines_)):
+                if lines_[k_].strip() and not lines_[k_].rstrip().endswith(("\\", "*")) and "/*" not in lines_[k_] and "//" not in lines_[k_]:
+                    lines_[k_] += [" \f", "\v", " /* page\fbreak */", " // \x85 \u2028 x", "\f /* \x1c */"][k_ % 5] if k_ % 3 == 0 else ""
+            text = "\n".join(lines_)
+        with open(path, "w", newline="") as f:
+            f.write(text.replace("\n", "\r\n") if case is not None and case.get("crlf") else text)
     g = gcc.preprocess(path, defines=defines)
     if not g["ok"]:
         acc.excluded("gcc-diagnostic", cls=cls)
@@ -187,6 +195,12 @@ def run_case(ctx, workdir, text, defines, r, cls, check_table=True, case=None):
         cells.add("block-comment-in-directive")
     if (case or {}).get("selfinc"):
         cells.add("file-includes-itself")
+    if (case or {}).get("formfeed") and "\f" in text:
+        cells.add("form-feed-and-other-non-line-breaks")
+    if (case or {}).get("crlf"):
+        cells.add("crlf-line-ends")
+        if "\\\n" in text:
+            cells.add("crlf-with-continuation-in-directive")
     if re.search(r"^\s*#\s*(/\*.*\*/)?\s*$", text, re.M):
         cells.add("null-directive")
     if re.search(r"^\s*#\s*(pragma|line|ident)", text, re.M):
@@ -356,7 +370,7 @@ def run_shard(ctx):
             ast = self_including(xr, ast)
         style = {"cont": 0.15, "comment": 0.15, "indent": 0.1} if style_roll < 0.5 else None
         case = {"ast": ast, "style": style, "sseed": srng_seed, "cli": (i % 50 == ctx.shard), "latin1": (i % 9 == 4),
-                "defines2": defines_b if i % 2 == 0 else None, "selfinc": selfinc}
+                "defines2": defines_b if i % 2 == 0 else None, "selfinc": selfinc, "formfeed": (i % 6 == 2), "crlf": (i % 8 == 5)}
         r = render_case(case)
         if r.n_chains == 0:
             continue
